@@ -208,6 +208,15 @@ static std::string do_op(const std::vector<std::string>& f) {
       theirs.Close();
       ret << n;
     }
+  } else if (name == "foreign") {
+    // the db now carries another installation's id (copied in / installation id changed)
+    UserDbWrapper<LevelDb> db(path(db_path(i)), kDict);
+    if (!db.Open()) {
+      ret << "openfail";
+    } else {
+      ret << (db.MetaUpdate("/user_id", "zz") ? 1 : 0);
+      db.Close();
+    }
   } else if (name == "ubackup") {
     UserDbWrapper<LevelDb> db(path(db_path(i)), kDict);
     if (!db.OpenReadOnly()) {
